@@ -685,7 +685,7 @@ func checkIssuer(c Case, d *crl.RevocationData, r *kit.R) {
 const rule = "CRLs from a model (0..12 entries drawn from a small serial pool so that duplicates are frequent; serials small, negative, > 64 bit, up to 40 octets, sign/hex-text/+-1 relatives; entry and CRL extensions critical and not; cRLNumber absent/int/beyond int64/critical; 0..4 issuer RDNs; version 0/1/other; with or without nextUpdate), either built in memory as pkix.CertificateList (sub-second and non-UTC revocation times) or hand-assembled as DER and parsed with ParseDERCRL, queried with a certificate whose serial is listed first/later/duplicated/absent/negated/+1 (struct with that serial, or an issued and parsed certificate). Oracle: first entry with equal serial decides flag and time for the linear search AND for a first-wins decimal-keyed cache built by the harness; issuer, version, update times, CRL number (when it fits int64) and the critical/non-critical split of the other extensions must equal the model. Non-trivial: listed query on a list with duplicates or CRL extensions; distinct by case hash"
 
 func TestPropCRL(t *testing.T) {
-	kit.Run(t, kit.Spec[Case]{ID: "C14", Name: "crl", Rule: rule, Gen: gen, Check: check, Quick: 6000, Thorough: 40000,
+	kit.Run(t, kit.Spec[Case]{ID: "C14", Name: "crl", Rule: rule, Gen: gen, Check: check, Quick: 8000, Thorough: 100000,
 		Assumptions: []string{
 			"the cache is built first-entry-wins and keyed by the decimal text of the serial (as crl_test.go keys it); a last-wins cache legitimately differs from the linear search on duplicates with different times",
 			"a cRLNumber that does not fit the int field cannot be copied; the observed value is recorded, not asserted",
